@@ -223,6 +223,7 @@ prop(
          "33000-70000 (multipart)}, counts 1-4 on counted columns; destination options keep the hashing scheme and change the other flags in 3 of 4 columns; "
          "forced migration of a third of the columns; in-place overwrite in a quarter of the cases; the real parity_db::migrate is run, then every key of the "
          "destination is read, counted destinations are iterated for the counts, and the source is re-read when overwrite was not requested. "
+         "Refusal families tie C20_refused_iff: 1 case in 10 has a btree column (not selected: copied as files and read back; forced, or hash -> btree: the call must fail with the model's error code and leave the source as it was), 1 in 25 asks for one column more than the source has (refused, code 1). "
          "Non-trivial: at least one present key with count > 1",
     assumptions=["sources are drained (one index generation) before migrating: migration of a source with a pending index growth is not exercised",
                  "btree columns cannot be migrated (the code refuses)"],
